@@ -42,7 +42,7 @@ STD_CONSTS = {
 PURE_FUNCS = {
     'len': len, 'min': min, 'max': max, 'ord': ord, 'chr': chr, 'str': str, 'int': int, 'abs': abs, 'sum': sum, 'any': any, 'all': all,
     'range': range, 'enumerate': enumerate, 'zip': zip, 'sorted': sorted, 'list': list, 'tuple': tuple, 'dict': dict, 'set': set,
-    'reversed': reversed, 'slice': slice, 'bool': bool, 'float': float, 'frozenset': frozenset, 'iter': iter,
+    'reversed': reversed, 'slice': slice, 'bool': bool, 'float': float, 'frozenset': frozenset, 'iter': iter, 'object': object,
     'itertools.product': itertools.product, 'product': itertools.product, 'str.maketrans': str.maketrans,
     'itertools.combinations': itertools.combinations, 'combinations': itertools.combinations, 'itertools.permutations': itertools.permutations,
     'itertools.chain': itertools.chain, 'chain': itertools.chain, 'itertools.combinations_with_replacement': itertools.combinations_with_replacement,
@@ -72,6 +72,18 @@ def _groupby(iterable, key=None):
 
 import math as _math
 PURE_FUNCS.update({'np.floor': _math.floor, 'numpy.floor': _math.floor, 'math.floor': _math.floor, 'np.ceil': _math.ceil, 'numpy.ceil': _math.ceil, 'math.ceil': _math.ceil})
+try:
+    import numpy as _np
+    PURE_FUNCS.update({f'{m_}.{n_}': getattr(_np, n_) for m_ in ('np', 'numpy') for n_ in ('zeros', 'ones', 'empty', 'vstack', 'hstack', 'argmax', 'argmin', 'arange', 'array', 'asarray', 'sort', 'argsort',
+                                                                                            'flatnonzero', 'nonzero', 'where', 'sum', 'max', 'min', 'amax', 'amin', 'cumsum', 'unique', 'stack', 'concatenate',
+                                                                                            'count_nonzero', 'take_along_axis', 'expand_dims', 'partition', 'equal', 'logical_and', 'logical_not', 'logical_or')})
+    STD_CONSTS.update({'np.newaxis': None, 'numpy.newaxis': None, 'np.int64': _np.int64, 'np.float64': _np.float64, 'np.nan': float('nan'), 'np.inf': float('inf')})
+    NDARRAY = _np.ndarray
+except Exception:          # pragma: no cover
+    _np = None
+    NDARRAY = ()
+import functools as _functools
+PURE_FUNCS.update({'functools.reduce': _functools.reduce, 'reduce': _functools.reduce, 'collections.namedtuple': collections.namedtuple, 'namedtuple': collections.namedtuple})
 import operator as _operator
 import heapq as _heapq
 PURE_FUNCS.update({'heapq.nsmallest': _heapq.nsmallest, 'heapq.nlargest': _heapq.nlargest, 'nsmallest': _heapq.nsmallest, 'nlargest': _heapq.nlargest})
@@ -163,6 +175,10 @@ class LocalFn:
     """a function defined inside an interpreted function (closure over the defining scope)"""
     def __init__(self, fdef, scope, bound=None):
         self.fdef, self.scope, self.bound = fdef, scope, bound
+
+    def __call__(self, *args, **kwargs):
+        # as a default factory / key function handed to a real container
+        return run_function(self.fdef, ([self.bound] if self.bound is not None else []) + list(args), kwargs, env=self.scope, budget=20000)
 PURE_METHODS = {
     str: {'join', 'upper', 'lower', 'index', 'find', 'count', 'startswith', 'endswith', 'replace', 'strip', 'split', 'translate', 'format', 'zfill'},
     dict: {'get', 'keys', 'values', 'items', 'copy'},
@@ -198,8 +214,8 @@ class Evaluator:
                 return v
             if e.id in ('None', 'True', 'False'):
                 return {'None': None, 'True': True, 'False': False}[e.id]
-            if e.id in ('list', 'dict', 'set', 'int', 'str', 'tuple', 'float'):
-                return {'list': list, 'dict': dict, 'set': set, 'int': int, 'str': str, 'tuple': tuple, 'float': float}[e.id]
+            if e.id in ('list', 'dict', 'set', 'int', 'str', 'tuple', 'float', 'object', 'bool'):
+                return {'list': list, 'dict': dict, 'set': set, 'int': int, 'str': str, 'tuple': tuple, 'float': float, 'object': object, 'bool': bool}[e.id]
             raise Unfoldable(f'name {e.id}')
         if isinstance(e, ast.Attribute):
             d = dotted(e)
@@ -230,6 +246,12 @@ class Evaluator:
             except Unfoldable:
                 raise Unfoldable(f'attribute {src(e)}')
             if isinstance(base, dict) and e.attr in ('get', '__getitem__', 'keys', 'values', 'items'):
+                return getattr(base, e.attr)
+            if isinstance(base, dict) and e.attr in base and all(isinstance(k_, str) and k_.isidentifier() for k_ in base):
+                return base[e.attr]            # a record the canonicalisation (N39) turned into a dictionary, read through a parameter of unknown type
+            if NDARRAY and isinstance(base, NDARRAY) and e.attr in ('shape', 'size', 'ndim', 'T', 'dtype'):
+                return getattr(base, e.attr)
+            if isinstance(base, tuple) and hasattr(base, '_fields') and (e.attr in base._fields or e.attr in ('_replace', '_asdict', '_fields')):
                 return getattr(base, e.attr)
             if isinstance(base, Raised):
                 return {'errno': base.errno, 'args': (), 'strerror': 'modelled failure'}.get(e.attr, None)
@@ -288,6 +310,10 @@ class Evaluator:
                           ast.GtE: lambda: l >= r, ast.Is: lambda: l is r, ast.IsNot: lambda: l is not r, ast.In: lambda: l in r, ast.NotIn: lambda: l not in r}[type(op)]()
                 except Exception as ex:
                     raise Unfoldable(str(ex))
+                if NDARRAY and isinstance(ok, NDARRAY):
+                    if len(e.ops) == 1:
+                        return ok               # elementwise comparison of arrays
+                    raise Unfoldable('chained comparison of arrays')
                 if not ok:
                     return False
                 l = r
@@ -372,9 +398,12 @@ class Evaluator:
             env[dotted(target)] = value
         elif isinstance(target, ast.Subscript):
             container = self.ev(target.value, env)
-            if not isinstance(container, (dict, list)):
+            if not isinstance(container, (dict, list)) and not (NDARRAY and isinstance(container, NDARRAY)):
                 raise Unfoldable('subscript store on non container')
-            container[self.ev(target.slice, env)] = value
+            if isinstance(target.slice, ast.Slice):
+                container[slice(*(None if x is None else self.ev(x, env) for x in (target.slice.lower, target.slice.upper, target.slice.step)))] = value
+            else:
+                container[self.ev(target.slice, env)] = value
         else:
             raise Unfoldable('bind target')
 
@@ -404,6 +433,8 @@ class Evaluator:
             if r is not NotImplemented:
                 return r
             raise Unfoldable(f'call {ref.name}')
+        if isinstance(e.func, ast.Name) and isinstance(env.get(e.func.id), type) and issubclass(env[e.func.id], tuple) and hasattr(env[e.func.id], '_fields'):
+            return env[e.func.id](*args, **kwargs)              # a namedtuple type of the analysed module
         if isinstance(e.func, ast.Name) and isinstance(env.get(e.func.id), LocalClass):
             cls = env[e.func.id]
             inst = Instance(cls)
@@ -511,6 +542,15 @@ class Evaluator:
                         return getattr(recv, e.func.attr)(*args, **kwargs)
                     except Exception as ex:
                         raise Raised(type(ex).__name__, f'{e.func.attr}: {ex}')
+            if isinstance(recv, dict) and e.func.attr == '_replace' and not args and all(isinstance(k_, str) and k_.isidentifier() for k_ in recv):
+                return dict(recv, **kwargs)
+            if isinstance(recv, tuple) and hasattr(recv, '_fields') and e.func.attr in ('_replace', '_asdict'):
+                return getattr(recv, e.func.attr)(*args, **kwargs)
+            if NDARRAY and isinstance(recv, NDARRAY) and e.func.attr in ('sum', 'max', 'min', 'argmax', 'argmin', 'argsort', 'any', 'all', 'tolist', 'copy', 'astype', 'nonzero', 'cumsum', 'flatten', 'reshape', 'item'):
+                try:
+                    return getattr(recv, e.func.attr)(*args, **kwargs)
+                except Exception as ex:
+                    raise Raised(type(ex).__name__, f'{e.func.attr}: {ex}')
             for typ, names in PURE_METHODS.items():
                 if isinstance(recv, typ) and e.func.attr in names:
                     try:
@@ -570,7 +610,7 @@ def run_function(fdef, args, kwargs=None, env=None, budget=20000, call_hook=None
 
     active = active if active is not None else []          # exceptions being handled (for a bare `raise`, also inside a function called from a handler)
     yields = []
-    is_gen = any(isinstance(n, (ast.Yield, ast.YieldFrom)) for st_ in fdef.body for n in _walk_own(st_))
+    is_gen = any(isinstance(n, (ast.Yield, ast.YieldFrom)) for st_ in fdef.body if not isinstance(st_, (ast.FunctionDef, ast.AsyncFunctionDef, ast.ClassDef)) for n in _walk_own(st_))
 
     def block(stmts):
         for s in stmts:
@@ -646,6 +686,8 @@ def run_function(fdef, args, kwargs=None, env=None, budget=20000, call_hook=None
                 ev.bind(t, v, scope)
         elif isinstance(s, ast.AugAssign) and (isinstance(s.target, ast.Name) or (isinstance(s.target, ast.Attribute) and dotted(s.target)) or isinstance(s.target, ast.Subscript)):
             cur = ev.ev(ast.copy_location(type(s.target)(**{**{f_: getattr(s.target, f_) for f_ in s.target._fields}, 'ctx': ast.Load()}), s.target), scope)
+            if _np is not None and isinstance(cur, _np.generic):
+                cur = cur.item()
             if isinstance(cur, (int, float, str)):
                 v = ev.ev(ast.BinOp(left=ast.Constant(cur), op=s.op, right=s.value), scope)
             elif isinstance(cur, list) and isinstance(s.op, ast.Add):
